@@ -244,6 +244,31 @@ Acquire(f, d) ==
   /\ UNCHANGED <<primary, pos, log, conn, bel, wedged, ntx, nexp, npc, nrogue, nblock, nckpt, nidle,
                  fLocal, fCkpt, fFirstPre, fAck, fBad, fFormer>>
 
+\* The acquire request reaches the primary while a local writer's transaction is open (the deviation
+\* "busy = time-out" above covers a writer that stays; this is the writer that finishes in time):
+\* AcquireHaltLock waits for the write lock, the writer commits, the lock is granted at the position
+\* AFTER that commit, the holder - caught up until then - waits for that position, the frame arrives,
+\* finds DB.remoteHaltLock set and clears it (processLTXStreamFrame), WaitPosExact returns and LockWait
+\* succeeds: the handle holds a lock the database no longer knows (the holder cannot write until it
+\* acquires again).  One composite step: every part is a step the code takes without the script.
+AcquireRace ==
+  /\ Go /\ ~wedged /\ ~hhas /\ UnsetFix /\ WaitPos /\ (hid # 0 \/ nhandle < MaxHandles)
+  /\ LET p == primary
+         id == IF hid = 0 THEN nhandle + 1 ELSE hid
+         e == [t |-> pos[p].t + 1, pre |-> pos[p].c, c |-> ntx + 1, node |-> p, snap |-> FALSE]
+         l == [id |-> id, pos |-> PosOf(e)]
+     IN /\ wl[p] = "lw" /\ ~HasLock(p) /\ ntx < MaxTx
+        /\ conn["R"] /\ wl["R"] = "free" /\ pos["R"] = pos[p] /\ bel["R"] = pos["R"] /\ rlock.id = 0
+        /\ hid' = id /\ nhandle' = IF hid = 0 THEN nhandle + 1 ELSE nhandle
+        /\ pos' = [pos EXCEPT ![p] = PosOf(e), !["R"] = PosOf(e)]
+        /\ log' = [log EXCEPT ![p] = Append(@, e), !["R"] = Append(@, e)]
+        /\ bel' = [bel EXCEPT !["R"] = PosOf(e)]
+        /\ halt' = [halt EXCEPT ![p] = l] /\ wl' = [wl EXCEPT ![p] = IF GrantPins THEN "halt" ELSE "free"]
+        /\ former' = former \ {id}
+        /\ hhas' = TRUE /\ first' = FALSE /\ ntx' = ntx + 1
+        /\ H("AcquireRace", [x |-> 0], [res |-> "ok", id |-> id, t |-> e.t, c |-> e.c])
+  /\ UNCHANGED <<primary, rlock, rpc, conn, dups, wedged, nfault, nexp, npc, nrogue, nblock, nckpt, nidle, fvars>>
+
 \* WaitPosExact gives up (HaltAcquireTimeout or position exceeded): the deferred release goes to the
 \* primary, DB.remoteHaltLock stays set, the handle holds nothing
 AcqTimeout ==
@@ -455,7 +480,7 @@ Next ==
   \/ AcqDone
   \/ OpenHandle
   \/ \E f \in Faults, d \in BOOLEAN : Acquire(f, d) \/ RTx(f, d) \/ Release(f, d)
-  \/ AcqTimeout
+  \/ AcqTimeout \/ AcquireRace
   \/ LWBegin \/ LWCommit \/ Ckpt \/ Expire
   \/ \E lid \in {BogusId} \cup former : Rogue(lid)
   \/ Dup
